@@ -496,7 +496,10 @@ def check_memo_functions(ctx, functions, rule='A2p'):
                                         hit = True
                             if isinstance(x, ast.Call) and call_name(x) == 'get' and x.args and \
                                     norm(x.args[0]) == key and isinstance(x.func, ast.Attribute) and \
-                                    norm(x.func.value) == cont:
+                                    norm(x.func.value) == cont and \
+                                    not any(y is x for y in ast.walk(s.ast.value)):
+                                # (a look-up inside the stored value itself - `C[k] = C.get(k, 0) + v` - is a
+                                # read-modify-write of an accumulator, not the hit test of a memo)
                                 hit = True
                 if not hit:
                     continue
